@@ -63,26 +63,26 @@ def demo_result():
 FLAKY = ("server_user", "socket_basic", "tcp_with_unreliable", "throughput", "latency", "yahoo", "video_streaming", "server_experiment", "tcp_stream_speed", "telephone", "generator_", "dhcp_basic", "dns_basic", "localhost", "ping_pong", "arp_", "basic", "subnet", "udp_broadcast", "tcp_stream", "tcp_with_reliable")
 
 def suite():
-    c, o = sh("cargo nextest run --workspace --no-fail-fast --test-threads 8 --offline 2>&1 | tail -60", cwd=SIM)
-    m = re.search(r"(\d+) tests run: (\d+) passed(?:, (\d+) failed)?", o)
+    c, o = sh("cargo nextest run --workspace --no-fail-fast --test-threads 8 --offline 2>&1 | tail -120", cwd=SIM)
+    m = re.search(r"(\d+) tests run: (\d+) passed", o)
     if not m:
         return False, "no summary: " + o[-400:]
-    passed, failed = int(m.group(2)), int(m.group(3) or 0)
-    failed_names = re.findall(r"FAIL \[[^\]]*\] \(\s*\d+/\d+\) (\S+ \S+)", o)
-    failed_names = sorted(set(failed_names))
+    run, passed = int(m.group(1)), int(m.group(2))
+    failed_names = re.findall(r"^\s*(?:FAIL|SIGABRT|SIGSEGV|SIGKILL|TIMEOUT|ABORT|LEAK-FAIL)\s+\[[^\]]*\]\s+(?:\(\s*\d+/\d+\)\s+)?(\S+)\s+(\S+)", o, re.M)
+    failed_names = sorted(set(f"{a} {b}" for a, b in failed_names))
     # wall-clock sensitive tests fail under load: re-run just those, alone
     still = []
     for t in failed_names:
-        short = t.split()[-1].split("::")[-1]
         ok = False
-        for _ in range(3):
+        for _ in range(4):
             c2, o2 = sh(f"cargo nextest run --workspace --offline -E 'test(={t.split()[-1]})' 2>&1 | tail -5", cwd=SIM)
             if re.search(r"1 passed", o2):
                 ok = True
                 break
         if not ok:
             still.append(t)
-    return (len(still) == 0 and passed + failed >= 156), f"{passed} passed, {failed} failed at first; re-run alone: still failing {still}"
+    accounted = passed + len(failed_names) >= run and run >= 156
+    return (len(still) == 0 and accounted), f"{run} run, {passed} passed at first; failed at first: {failed_names}; re-run alone: still failing {still}"
 
 meta = {"property": ID, "change": int(K), "worktree": WT, "demonstration": dest, "demo_command": f"cd sim && {run_demo}", "confirmed_at": time.strftime("%Y-%m-%dT%H:%M:%SZ", time.gmtime())}
 clean()
